@@ -942,6 +942,69 @@ func (c *Ctx) lengthAndWriterAgree() {
 				}
 			}
 		}
+		// the length of a field taken inside a helper of the package (`lpLen(m.WillFlag(), m.willTopic)`): the guards
+		// inside the helper, with its parameters replaced by what the call passes, and the guards of the call itself
+		for _, call := range ir.Calls(ml) {
+			h := call.Common().StaticCallee()
+			cv, isVal := call.(ssa.Value)
+			if h == nil || !isVal || h.Blocks == nil || h.Pkg != ml.Pkg || h == ml || call.Common().IsInvoke() {
+				continue
+			}
+			for ai, a := range call.Common().Args {
+				f := fieldOf(a, ml.Params[0])
+				if f == "" || ai >= len(h.Params) {
+					continue
+				}
+				if _, isSl := a.Type().Underlying().(*types.Slice); !isSl {
+					continue
+				}
+				for _, hc := range ir.Calls(h) {
+					bi, ok := hc.Common().Value.(*ssa.Builtin)
+					if !ok || bi.Name() != "len" || ir.SeeThrough(hc.Common().Args[0]) != ssa.Value(h.Params[ai]) {
+						continue
+					}
+					hv, _ := hc.(ssa.Value)
+					inner, ok := c.inclusionFacts(h, hv, relevant)
+					if !ok {
+						continue
+					}
+					fs := map[string]bool{}
+					for k := range inner {
+						// "atom=truth" with the helper's parameters replaced by the arguments of the call
+						eq := strings.LastIndex(k, "=")
+						atom, truth := k[:eq], k[eq+1:] == "true"
+						switch {
+						case strings.HasPrefix(atom, "param:"):
+							name := strings.TrimPrefix(atom, "param:")
+							for pi, prm := range h.Params {
+								if prm.Name() == name && pi < len(call.Common().Args) {
+									for k2 := range relevant(c.impliedFacts(call.Common().Args[pi], truth, 1)) {
+										fs[k2] = true
+									}
+								}
+							}
+						default:
+							for pi, prm := range h.Params {
+								if pi < len(call.Common().Args) && strings.Contains(atom, "len("+prm.Name()+")") {
+									if d := describeOperand(call.Common().Args[pi]); d != "" {
+										atom = strings.Replace(atom, "len("+prm.Name()+")", "len("+d+")", 1)
+									}
+								}
+							}
+							fs[fmt.Sprintf("%s=%v", atom, truth)] = true
+						}
+					}
+					if outer, ok := c.inclusionFacts(ml, cv, relevant); ok {
+						for k := range outer {
+							fs[k] = true
+						}
+					}
+					if old, seen := counted[f]; !seen || len(fs) > len(old) {
+						counted[f] = fs
+					}
+				}
+			}
+		}
 		written := map[string]map[string]bool{}
 		wpos := map[string]string{}
 		for _, en := range []string{"Encode", "encodeMessage"} {
@@ -963,6 +1026,35 @@ func (c *Ctx) lengthAndWriterAgree() {
 				if f := fieldOf(arg, ef.Params[0]); f != "" && f != "dbuf" {
 					written[f] = relevant(c.presenceFacts(call.Block()))
 					wpos[f] = c.P.InstrPos(call)
+					continue
+				}
+				// the fields gathered into a local list first and written by one loop over it
+				// (`fields = append(fields, m.willTopic, m.willMessage)` ... `for _, f := range fields { writeLPBytes(.., f) }`):
+				// a field is written under the guards of the append that puts it on the list
+				if u, ok := ir.SeeThrough(arg).(*ssa.UnOp); ok {
+					if ia, ok := u.X.(*ssa.IndexAddr); ok {
+						if _, isLocal := ir.PathOf(ia.X).Root.(*ssa.Parameter); !isLocal || len(ir.PathOf(ia.X).Fields) == 0 {
+							for _, b2 := range ef.Blocks {
+								for _, in2 := range b2.Instrs {
+									st, ok := in2.(*ssa.Store)
+									if !ok {
+										continue
+									}
+									ea, ok := st.Addr.(*ssa.IndexAddr)
+									if !ok {
+										continue
+									}
+									if _, isArr := ea.X.(*ssa.Alloc); !isArr {
+										continue
+									}
+									if f := fieldOf(st.Val, ef.Params[0]); f != "" && f != "dbuf" {
+										written[f] = relevant(c.presenceFacts(b2))
+										wpos[f] = c.P.InstrPos(st)
+									}
+								}
+							}
+						}
+					}
 				}
 			}
 		}
